@@ -289,7 +289,9 @@ theorem c20_model_checks (max : Nat) (reg : Reg) (evs : List Ev) (sh0 : Sh) (h0 
 `S(acc=[])`, `Coalesce(…, default=[])`, `T.get(k, {})`, `Call(f, args=([],))`, `Assign(p, [])`,
 `Or(…, default=[])` …: the literal is an object inside the spec, shared by every call that uses the
 spec (threads, re-entrant calls, later calls).  `Glom/Model/C20Arg.lean` models `_ArgValuator.mode`
-on an object heap; the spec's literals are the addresses below `h.length`. -/
+on an object heap; the spec's literals are the addresses below `h.length`.  In the system of calls,
+taking the value of an argument is ONE operation (`arg_val` touches only its own `_ArgValuator` —
+the `argValFresh` fact — and, by `c20_argval_fresh`, containers that did not exist before it). -/
 
 section argShared
 open Glom.C20.Arg
@@ -446,6 +448,31 @@ example : ∀ t ∈ [accCall "'A'", accCall "'B'"], ∀ op ∈ t.ops, FlatOp acc
     · rfl
     · trivial
     · trivial
+-- the hypotheses are forced.  Without `hflat` the by-value reference does not speak: for the nested
+-- literal `[[]]` and a push into the inner list the call reads its push, the reference (pushes below
+-- the top are outside its language) does not
+example :
+    let t : Thread := { ev := fun s => s, ops := [.bind (.ref 0), .push [0] "'A'", .read] }
+    (((Arg.Sys.mk [⟨.list, [.ref 1]⟩, ⟨.list, []⟩] [t]).run false 8 [0, 0, 0]).threads.map (·.out)
+      = [[["list(", "list(", "'A'", ")", ")"]]]) ∧
+    (privRun t.ev [⟨.list, [.ref 1]⟩, ⟨.list, []⟩] t.ops {}).out = [["list(", "...", ")"]] := by
+  decide +kernel
+-- without `hinit`: a call that starts out holding the literal itself writes into the spec
+example :
+    let t : Thread := { ev := fun s => s, ops := [.push [] "'A'"], reg := .ref 0 }
+    ((Arg.Sys.mk accLits [t]).run false 8 [0]).heap[0]? = some ⟨.list, [.leaf "'A'"]⟩ := by
+  decide +kernel
+-- with fuel 1 (the theorems need 2: one level for the container, one for its leaves) the items are not evaluated
+example : (argVal (fun s => s) 1 [⟨.list, [.leaf "7"]⟩] (.ref 0)).1[1]? = some ⟨.list, [.leaf "<fuel>"]⟩ := by
+  decide +kernel
+-- `c20_arg_model_checks`: its hypotheses hold for the two calls above under the alternating schedule
+example : (∀ r ∈ [Val.ref 0], ∃ l o, r = .ref l ∧ accLits[l]? = some o ∧ Flat o) ∧
+    (∀ t ∈ ((Arg.Sys.mk accLits [accCall "'A'", accCall "'B'"]).runSegments false 8 100 [0, 1, 0, 1]).threads, t.ops = []) := by
+  refine ⟨?_, by decide +kernel⟩
+  intro r hr
+  simp only [List.mem_cons, List.not_mem_nil, or_false] at hr
+  subst hr
+  exact ⟨0, ⟨.list, []⟩, rfl, rfl, by intro v hv; simp at hv⟩
 -- … and `c20_argval_fresh` says something for a literal that is nested, shared and cyclic:
 -- `x = []; l = [x, x, {'k': x}]; l.append(l)` evaluates to a new list whose first two items are ONE
 -- new list, with a new dict around the same new list, and itself as the last item
